@@ -373,6 +373,22 @@ Theorem C07_toFloat_exact : forall s v, str_to_float s = Ok v ->
   exists neg mant k x, float_numeral s neg mant k /\ v = VFloat x /\ float_denotes x neg mant k.
 Proof. exact toFloat_sound. Qed.
 
+(* toFloat, the syntax side: every decimal floating-point numeral is read with exactly its sign, mantissa
+   and exponent (the answer is then decided by the value alone: float_of_decimal); a text has at most one
+   reading; an error means the text is no decimal numeral, or its value is 2^1024 or more *)
+Theorem C07_toFloat_syntax :
+  (* toFloat_numeral_read *)
+  (forall s neg mant k, float_numeral s neg mant k ->
+     existsb float_special_char s = false -> str_to_float s = float_of_decimal neg mant k) /\
+  (* float_numeral_unique *)
+  (forall s n1 m1 k1 n2 m2 k2,
+     float_numeral s n1 m1 k1 -> float_numeral s n2 m2 k2 -> n1 = n2 /\ m1 = m2 /\ k1 = k2) /\
+  (* toFloat_reject *)
+  (forall s, str_to_float s = Err None ->
+     (forall neg mant k, ~ float_numeral s neg mant k) \/
+     (exists neg mant k, float_numeral s neg mant k /\ 0 <= k /\ two1024 <= mant * 10 ^ k)).
+Proof. exact (conj toFloat_numeral_read (conj float_numeral_unique toFloat_reject)). Qed.
+
 (* numeric static functions on ints compute the mathematical function, the int64 wrap-around made
    explicit: abs (abs(minInt) = minInt, negative!), sign = sgn, sqr = z*z modulo 2^64, binAnd / binOr
    bit by bit on two's complement, isInt / isFloat, float(int) exact, wrong argument kinds are errors *)
@@ -553,3 +569,4 @@ Print Assumptions C07_rounding_statics.
 Print Assumptions C07_merge_sorted.
 Print Assumptions C07_merge_tie_takes_other.
 Print Assumptions C07_eval_replaceList.
+Print Assumptions C07_toFloat_syntax.
